@@ -3,10 +3,15 @@
 package splicer
 
 import (
+	"encoding/json"
+	"fmt"
 	"math/rand"
+	"regexp"
+	"servitor/jtp"
 	"servitor/mime"
 	"servitor/pub"
 	"servitor/verifkit"
+	"servitor/verifsim"
 	"testing"
 	"time"
 )
@@ -116,6 +121,106 @@ func verifRun(out *verifkit.Trace, sid int, in verifSession) {
 	}
 }
 
+var verifNameRe = regexp.MustCompile(`s([0-9]+)k([0-9]+)t([0-9]+)`)
+var verifSGRe = regexp.MustCompile("\x1b\\[[0-9;]*m")
+
+/*
+	The same session through NewSplicer: every source is a paged collection served by the simulator
+	(a failed source: an address that cannot be fetched), fetched side by side with random latencies -
+	the source listed first is often the slowest.  The order in which the fetches complete must not
+	show in the feed.
+*/
+func verifRunServed(out *verifkit.Trace, sim *verifsim.Sim, rng *rand.Rand, sid int, in verifSession) {
+	out.Emit(verifkit.M{"ev": "reset", "sid": sid, "sources": in.Sources, "failed": in.Failed, "served": true})
+	sim.Reset()
+	jtp.VerifSetCache(64)
+	hosts := []*verifsim.Host{sim.Host("f1"), sim.Host("f2")}
+	serve := func(h *verifsim.Host, target string, doc map[string]any, delay time.Duration) {
+		doc["id"] = h.URL(target)
+		data, _ := json.Marshal(doc)
+		h.Set(target, &verifsim.Route{Raw: []byte("HTTP/1.1 200 OK\r\nContent-Type: application/activity+json\r\n\r\n" + string(data)), Delay: delay})
+	}
+	inputs := make([]string, len(in.Sources))
+	for i, tss := range in.Sources {
+		h := hosts[i%2]
+		root := fmt.Sprintf("/feed%d/src%d", sid, i+1)
+		inputs[i] = h.URL(root)
+		failed := false
+		for _, f := range in.Failed {
+			failed = failed || f == i+1
+		}
+		if failed {
+			continue /* nothing is served there: 404 */
+		}
+		items := make([]any, len(tss))
+		for k, ts := range tss {
+			note := map[string]any{"id": h.URL(fmt.Sprintf("%s/n%d", root, k+1)), "type": "Note", "name": fmt.Sprintf("s%dk%dt%d", i+1, k+1, ts), "content": "<p>x</p>"}
+			if ts != 0 {
+				note["published"] = fmt.Sprintf("2024-01-01T%02d:00:00Z", ts)
+			}
+			items[k] = note
+		}
+		/* the listed-first source answers last more often than not */
+		delay := time.Duration(rng.Intn(8)) * time.Millisecond
+		if i == 0 && rng.Intn(3) > 0 {
+			delay = time.Duration(25+rng.Intn(30)) * time.Millisecond
+		}
+		split := len(items)
+		if len(items) > 1 && rng.Intn(2) == 0 {
+			split = 1 + rng.Intn(len(items)-1)
+		}
+		doc := map[string]any{"type": "OrderedCollection", "totalItems": len(items)}
+		if split == len(items) && rng.Intn(2) == 0 {
+			doc["orderedItems"] = items
+		} else {
+			doc["first"] = h.URL(root + "?page=1")
+			page1 := map[string]any{"type": "OrderedCollectionPage", "orderedItems": items[:split]}
+			if split < len(items) {
+				page1["next"] = h.URL(root + "?page=2")
+				serve(h, root+"?page=2", map[string]any{"type": "OrderedCollectionPage", "orderedItems": items[split:]}, 0)
+			}
+			serve(h, root+"?page=1", page1, 0)
+		}
+		serve(h, root, doc, delay)
+	}
+	var sp *Splicer
+	if panicked, what := verifkit.Try(func() { sp = NewSplicer(inputs) }); panicked {
+		out.Emit(verifkit.M{"ev": "call", "on": 1, "q": 0, "start": 0, "items": [][]int{}, "done": false, "panic": true, "what": "NewSplicer: " + what})
+		return
+	}
+	conts := []pub.Container{sp}
+	for _, c := range in.Calls {
+		if c.On < 1 || c.On > len(conts) {
+			continue
+		}
+		cont := conts[c.On-1]
+		var items []pub.Tangible
+		var next pub.Container
+		panicked, what := verifkit.Try(func() { items, next, _ = cont.Harvest(c.Q, c.Start) })
+		tags := [][]int{}
+		for _, it := range items {
+			var a, b, ts int
+			if m := verifNameRe.FindStringSubmatch(verifSGRe.ReplaceAllString(it.Name(), "")); m != nil {
+				fmt.Sscanf(m[1], "%d", &a)
+				fmt.Sscanf(m[2], "%d", &b)
+				fmt.Sscanf(m[3], "%d", &ts)
+			}
+			tags = append(tags, []int{a, b, ts})
+		}
+		ev := verifkit.M{"ev": "call", "on": c.On, "q": c.Q, "start": c.Start, "items": tags, "done": next == nil, "panic": panicked}
+		if panicked {
+			ev["what"] = what
+		}
+		out.Emit(ev)
+		if panicked {
+			return
+		}
+		if next != nil {
+			conts = append(conts, next)
+		}
+	}
+}
+
 func verifRandom(rng *rand.Rand) verifSession {
 	var s verifSession
 	n := 1 + rng.Intn(5)
@@ -164,8 +269,12 @@ func TestVerifSplice(t *testing.T) {
 	var in struct {
 		Sessions []verifSession `json:"sessions"`
 		Random   int            `json:"random"`
+		Served   int            `json:"served"`
 	}
 	verifkit.In(&in)
+	if in.Served < 1 {
+		in.Served = 1
+	}
 	out := verifkit.Out()
 	defer out.Close()
 	sid := 0
@@ -177,5 +286,27 @@ func TestVerifSplice(t *testing.T) {
 	for i := 0; i < in.Random; i++ {
 		sid++
 		verifRun(out, sid, verifRandom(rng))
+	}
+	/* a share of the sessions again through NewSplicer over served collections */
+	sim := verifsim.Get()
+	defer sim.Cleanup()
+	jtp.VerifSetTimeout(3 * time.Second)
+	stride := 1 + len(in.Sessions)/in.Served
+	for i := 0; i < len(in.Sessions); i += stride {
+		sid++
+		verifRunServed(out, sim, rng, sid, in.Sessions[i])
+	}
+	for i := 0; i < in.Served/2; i++ {
+		sid++
+		s := verifRandom(rng)
+		/* ties between sources are what matters here */
+		for a := range s.Sources {
+			for b := range s.Sources[a] {
+				if s.Sources[a][b] != 0 {
+					s.Sources[a][b] = 1 + s.Sources[a][b]%3
+				}
+			}
+		}
+		verifRunServed(out, sim, rng, sid, s)
 	}
 }
